@@ -305,7 +305,7 @@ class Rules:
             if poly == 'pair':
                 if len(args) == 2 and args[0] is not None and args[1] is not None:
                     return frozenset(('prod', a, b) for a in args[0] for b in args[1])
-                return frozenset({'tuple'})
+                return None        # (not {'tuple'}: an answer that narrows once the arguments become known is needlessly non-monotone)
             if poly == 'none':
                 return frozenset({'none'})
             return None
